@@ -1,1 +1,2 @@
--- modules of work area Sys (add imports here)
+import AM.Model.Dedup
+import AM.Props.C04
